@@ -43,6 +43,8 @@ type swarmScenario struct {
 	refHook  string
 	refN     int
 	refKill  bool // instead of refusing that call: close the node's connections while it is in progress
+	// dialGiveUp k > 0: the caller of DialPeer gives up after k/2 ms (0: after a generous 20 s)
+	dialGiveUp int
 	nStreams int
 	// closeNotReset: the dialling side finishes a stream that failed with Close() only (the usual
 	// deferred Close) instead of Reset(); serverResetEvery k>0: the echo handler resets every
@@ -89,6 +91,11 @@ func drawSwarmScenario(rt *rapid.T) *swarmScenario {
 			kind: rapid.SampledFrom([]string{"closeConn", "closePeer", "openStream", "resetStream", "serverClosePeer", "serverCloseWithError", "clientHangup"}).Draw(rt, "kind"),
 		})
 	}
+	if rapid.IntRange(0, 2).Draw(rt, "dialGiveUp?") == 0 {
+		// the only caller of DialPeer gives up after k half-milliseconds (the link's one-way latency is
+		// 1 ms, so some of these instants are the very instant the handshake or the upgrade completes)
+		sc.dialGiveUp = rapid.IntRange(1, 30).Draw(rt, "dialGiveUp")
+	}
 	keepOpen := rapid.IntRange(0, 2).Draw(rt, "keepOpen") == 0 // no scheduled Swarm.Close: connections live until the final audit
 	for i := 0; i < 2; i++ {
 		if keepOpen {
@@ -113,7 +120,7 @@ func (sc *swarmScenario) String() string {
 	for _, a := range sc.actions {
 		as = append(as, fmt.Sprintf("%s@%d", a.kind, a.at))
 	}
-	return fmt.Sprintf("%s io=%s/op%d/%s ref=%s/%s#%d(kill=%v) streams=%d(closeNotReset=%v serverResetEvery=%d) actions=[%s] close=%v upgradedGater(delay=%v reject=%v)", sc.cfg, sc.ioSide, sc.ioK, sc.ioKind, sc.refSide, sc.refHook, sc.refN, sc.refKill, sc.nStreams, sc.closeNotReset, sc.serverResetEvery,
+	return fmt.Sprintf("giveUp=%d/2ms ", sc.dialGiveUp) + fmt.Sprintf("%s io=%s/op%d/%s ref=%s/%s#%d(kill=%v) streams=%d(closeNotReset=%v serverResetEvery=%d) actions=[%s] close=%v upgradedGater(delay=%v reject=%v)", sc.cfg, sc.ioSide, sc.ioK, sc.ioKind, sc.refSide, sc.refHook, sc.refN, sc.refKill, sc.nStreams, sc.closeNotReset, sc.serverResetEvery,
 		strings.Join(as, " "), sc.closeAt, sc.upgDelay, sc.upgReject)
 }
 
@@ -121,7 +128,7 @@ func TestSwarmPair(t *testing.T) {
 	name := t.Name()
 	hx.Check(t, 10000, 800000, 0, func(rt *rapid.T) {
 		sc := drawSwarmScenario(rt)
-		var fired, established, killFired bool
+		var fired, established, killFired, gaveUp bool
 		hx.Bubble(t, rt, func() {
 			nw := memtpt.NewNetwork()
 			nw.Latency = time.Millisecond
@@ -277,9 +284,16 @@ func TestSwarmPair(t *testing.T) {
 				go func() { defer wg.Done(); time.Sleep(time.Duration(ms) * time.Millisecond); f() }()
 			}
 			at(0, func() {
-				ctx, cancel := context.WithTimeout(context.Background(), 20*time.Second)
+				d := 20 * time.Second
+				if sc.dialGiveUp > 0 {
+					d = time.Duration(sc.dialGiveUp) * 500 * time.Microsecond
+				}
+				ctx, cancel := context.WithTimeout(context.Background(), d)
 				defer cancel()
 				c, err := sws[0].DialPeer(ctx, server.id.ID)
+				if err != nil && sc.dialGiveUp > 0 {
+					gaveUp = true
+				}
 				if err == nil && c != nil {
 					established = true
 					for i := 0; i < sc.nStreams; i++ {
@@ -408,6 +422,12 @@ func TestSwarmPair(t *testing.T) {
 		}
 		if killFired {
 			labels = append(labels, "connections-closed-during-rcmgr-call:"+sc.refSide+"/"+sc.refHook)
+		}
+		if sc.dialGiveUp > 0 {
+			labels = append(labels, "dial-caller-gives-up-early")
+			if gaveUp {
+				labels = append(labels, "dial-caller-gave-up-before-the-connection-was-handed-out")
+			}
 		}
 		var kinds []string
 		for _, a := range sc.actions {
